@@ -92,6 +92,10 @@ def main():
         for d in tg:
             shutil.rmtree(d, ignore_errors=True)
     allres = dict(PREV)
+    try:        # another (subset) run may have finished meanwhile
+        allres.update(json.load(open(os.path.join(RF, "results.json")))["results"])
+    except Exception:
+        pass
     allres.update(res)
     json.dump({"results": allres}, open(os.path.join(RF, "results.json"), "w"), indent=1, sort_keys=True)
     print("silent on %d / %d (%.0fs)" % (sum(1 for r in res.values() if r.get("rc") == 0), len(res), time.time() - t0))
